@@ -5,6 +5,7 @@ import os
 VERIF = os.path.dirname(os.path.dirname(os.path.abspath(__file__)))
 
 HOOK_COMMITS = ["b9d4bd0", "034d117", "c156e58"]
+FIX_COMMITS = ["d307ba7", "1245628", "e2789dc"]
 
 TRUST = ("TLC 1.8 and the TLA+ reference modules (cross-validated against gcc 12 / gfortran / git where an "
          "external tool exists); the Python harness only materialises TLC-generated cases, reformats traces and "
@@ -22,6 +23,28 @@ CHECKS = {
              "Exhaustive up to the bound, sampled beyond; the reference itself is validated against gcc -E.",
         design="3/C01"),
 }
+
+CHECKS["C04"] = dict(
+    technique="TLA+ reference include machine (PreprocCore) + implementation model of the include memo "
+              "(MC_IncludeMemo) checked by TLC; TLC-generated source trees replayed through load_database + "
+              "finder.find; hook traces validated by Trace_Preproc.tla",
+    text="TLC proves on the memo model that, for every existence map, include-path list and look-up history, the "
+         "memoised search answers exactly what the memory-less compiler search would; the reference machine's "
+         "invariants are checked on every generated tree; every tree of the exhaustive profile (same header name "
+         "beside the includer / in -I / in -isystem, guarded/defining/including bodies, quote+angle+computed forms, "
+         "all flag orders) and simulated richer trees are materialised and the per-line attribution of every file is "
+         "compared with the reference, itself validated against gcc -E; Resolve/Enter/Exit/Visit events are "
+         "trace-validated.",
+    design="3/C04")
+CHECKS["C08"] = dict(
+    technique="TLA+ model of finder.find's per-command loop (MC_Isolation) explored by TLC over every TU order; "
+              "TLC-simulated scenarios replayed in full / split / reordered / via `codebasin -p`; BeginTU trace validation",
+    text="TLC checks that with a fresh per-command state the platform association equals the union of its commands "
+         "analysed alone under every processing order (and exhibits counterexamples when the include-once set or the "
+         "macro table is allowed to survive); generated multi-platform scenarios are run in full, split per command, "
+         "with orders reversed and through the CLI with every -p subset, each compared with the reference's expectation; "
+         "every traced TU must start with an empty memo, an empty include-once set and exactly the -D macros.",
+    design="3/C08")
 
 PENDING_REASON = "check not built yet (build in progress; see DESIGN.md section 7)"
 
